@@ -13,7 +13,8 @@ META = {
         "every output is dominated by that call. R3 (EFF, 'a leg must debit what the guard reads'): the guard reads lot "
         "availability counters and pool.quantity; every leg producer's transitive write set must intersect those locations, "
         "otherwise a disposal it records leaves the guarded holding untouched and the same shares can be sold again. R4 (PROV): "
-        "every error built in the cascade formats the sale's ticker and date. Does not decide the iff over histories nor the "
+        "every error built in the cascade formats the sale's ticker and date. R5: the quantities the guard reads are maintained by "
+        "paired updates (shared with C02-R3: recorded = debited; pooled = marked on the lots). Does not decide the iff over histories nor the "
         "decimal-residue refusal after a 3-for-1 split."),
     "trusted_base": ["rustc MIR + resolution", "callee write sets are computed over workspace bodies only"],
 }
@@ -201,3 +202,11 @@ def run(ctx, rep):
     frontends(R, rep)
     guard_reads_vs_leg_writes(R, rep)
     error_texts(R, rep)
+    # the holding the guard reads must be kept exact: what a rule records is what it debits, what is pooled is what
+    # leaves the lots (shared with C02-R3) — phantom or vanished shares make the guard accept or refuse wrongly
+    import rules.c02 as c02
+    from core import Report
+    r2 = Report("tmp")
+    c02.pairing(R, r2)
+    for o in r2.obligations:
+        rep.ob("R5", o["instance"], o["ok"], o["detail"], o["site"], key="R5:" + o["instance"])
